@@ -348,9 +348,15 @@ class CcwStub(Contract):
     trusted = True
 
     def __call__(self, interp, cx, cy):
-        from pyvc.engine import sig_of
+        """the two coordinate arrays in counter-clockwise order: new values (possibly both reversed) that belong together"""
+        from pyvc.engine import sig_of, SIGS
         interp.cur_frame.unit._ccw_args = (sig_of(cx), sig_of(cy))
-        return (cx, cy)
+        out = []
+        for i in (0, 1):
+            r = SOpaque(interp.ctx.const(f"ccw_out{i}", Elem))
+            SIGS[id(r)] = (r, ("ccw", i, sig_of(cx), sig_of(cy)))
+            out.append(r)
+        return tuple(out)
 
 
 class VolumeDataflow(Contract):
@@ -389,11 +395,14 @@ class VolumeDataflow(Contract):
         cx = ("Sub", ("contour", 0), ("sym", str(self._px.e / self._pix.e)))
         cy = ("Sub", ("contour", 1), ("sym", str(self._py.e / self._pix.e)))
         calls = self._vol_calls
-        ok = len(calls) == 2 and all(repr(cx) in repr(c[1]) and repr(cy) in repr(c[0]) and c[2] == ("sym", "pix")
-                                     for c in calls)
+        # r derives from the first, z from the second output of the orientation step -- the pair belongs together: a
+        # coordinate array taken from before the re-orientation must not be combined with a re-oriented one
+        ok = len(calls) == 2 and all(repr(("ccw", 0, cy, cx))[:-1] in repr(c[0]) and repr(("ccw", 1, cy, cx))[:-1] in repr(c[1])
+                                     and "('ccw', 1" not in repr(c[0]) and "('ccw', 0" not in repr(c[1])
+                                     and c[2] == ("sym", "pix") for c in calls)
         return [("the orientation test receives the coordinates relative to the centroid (r = y - pos_y/pix, z = x - pos_x/pix)",
                  z3.BoolVal(self._ccw_args == (cy, cx))),
-                ("both half volumes are computed from the centred contour with the pixel size as scale",
+                ("both half volumes are computed from the centred, re-oriented pair (r, z) with the pixel size as scale",
                  z3.BoolVal(ok))]
 
 
@@ -675,6 +684,15 @@ def replay(unit_name, inp, obligation=""):
             from dclab.features.volume import get_volume
             th = np.linspace(0, 2 * np.pi, 720, endpoint=False)
             pix = 0.34
+            # an asymmetric contour given clockwise: fixing the orientation gives the volume of the same contour
+            # given counter-clockwise (the reversed point list)
+            poly = np.array([[40, 30], [48, 31], [55, 36], [52, 44], [44, 45], [41, 38]], dtype=float)
+            cxy = (poly[:, 0].mean(), poly[:, 1].mean())
+            v_ccw = get_volume(poly, cxy[0] * pix, cxy[1] * pix, pix, fix_orientation=True)
+            v_cw = get_volume(poly[::-1].copy(), cxy[0] * pix, cxy[1] * pix, pix, fix_orientation=True)
+            if not (v_ccw > 0 and np.isclose(v_ccw, v_cw, rtol=1e-9)):
+                return {"failed": True, "detail": f"asymmetric hexagon: volume {float(v_ccw)} when given in one direction, "
+                                                  f"{float(v_cw)} in the other, although the orientation is fixed"}
             refs = {}
             for orient in (1, -1):
                 refs[orient] = get_volume(np.c_[10 * np.cos(orient * th) + 50, 6 * np.sin(orient * th) + 30], 50 * pix, 30 * pix,
